@@ -538,6 +538,6 @@ RULE = RULE + " " + ("Since seeded round 5 the termination facet continues every
 
 FACETS = [
     Facet("exhaustive", check_exhaustive, enumerate=enum_histories, shards=(16, 16), setup=setup, native=True, hang_is_violation=True),
-    Facet("termination", check_term, strategy=strat_term, examples=(400, 6000), shards=(4, 16), setup=setup, native=True),
+    Facet("termination", check_term, strategy=strat_term, examples=(400, 6000), shards=(4, 16), setup=setup, native=True, shrink=False),
     Facet("random", check_random, strategy=strat_random, examples=(320, 8000), shards=(16, 16), setup=setup, native=True, hang_is_violation=True),
 ]
